@@ -137,9 +137,30 @@ pub fn c15_case(inp: &ExecInput, lazy: bool) -> Option<Case> {
             for (_, ea) in es { if !ea.iter().any(|(k, _)| k == DLOC) { attrs_ok = false; } }
         }
     }
+    // the cited locations are judged against the DSL TEXT (1-based line, 1-based CHARACTER column): at a node's location
+    // stands its variable's text, at an edge's location stands an `edge` keyword
+    let mut loc_ok = true;
+    if let Obs::Ok(g) = &dbg {
+        let lines: Vec<&str> = inp.dsl.lines().collect();
+        let at = |loc: &str, want: &str| -> bool {
+            let p: Vec<&str> = loc.split_whitespace().collect();          // "line R column C"
+            if p.len() != 4 { return false; }
+            match (p[1].parse::<usize>(), p[3].parse::<usize>()) {
+                (Ok(r), Ok(c)) if r >= 1 && c >= 1 => lines.get(r - 1).map(|l| l.chars().skip(c - 1).collect::<String>().starts_with(want)).unwrap_or(false),
+                _ => false,
+            }
+        };
+        for (a, es) in g {
+            let var = a.iter().find(|(k, _)| k == DVAR).and_then(|(_, v)| if let GV::Str(s) = v { Some(s.clone()) } else { None });
+            let loc = a.iter().find(|(k, _)| k == DLOC).and_then(|(_, v)| if let GV::Str(s) = v { Some(s.clone()) } else { None });
+            // a scoped variable `<scope>.name` is located at its NAME (what the parser records for it)
+            if let (Some(v), Some(l)) = (var, loc) { let want = v.rsplit('.').next().unwrap_or(&v).to_string(); if !at(&l, &want) { loc_ok = false; } }
+            for (_, ea) in es { if let Some((_, GV::Str(l))) = ea.iter().find(|(k, _)| k == DLOC) { if !at(l, "edge") { loc_ok = false; } } }
+        }
+    }
     let r = run_in_term(&file, &inp.dsl, &tree, &info, &inp.supplied, lazy)?;
     let model = format!("c15_verdict ({}) ({}) {}", tree_term(&info), r, dbg.coq());
-    let verdict = if !neutral { "40".to_string() } else if !attrs_ok { "41".to_string() } else { model };
+    let verdict = if !neutral { "40".to_string() } else if !attrs_ok { "41".to_string() } else if !loc_ok { "42".to_string() } else { model };
     let mut replay = input_json(inp);
     replay["lazy"] = json!(lazy);
     replay["impl"] = json!({"plain": plain.class(), "debug": dbg.class(), "neutral": neutral, "attrs_ok": attrs_ok,
@@ -156,7 +177,9 @@ pub fn c15_gen(rng: &mut Rng, n: usize) -> Vec<Case> {
     let mut tries = 0;
     while out.len() < n && tries < n * 20 {
         tries += 1;
-        let inp = crate::c01::gen_input(rng, &opts);
+        let mut inp = crate::c01::gen_input(rng, &opts);
+        // other layouts: several statements per line behind non-ASCII literals, tabs (character vs byte columns)
+        if rng.chance(35) { inp.dsl = relayout(rng, &inp.dsl); }
         let lazy = rng.chance(50);
         if let Some(c) = c15_case(&inp, lazy) { out.push(c); }
     }
@@ -794,6 +817,11 @@ pub fn c04_input_mode(rng: &mut Rng, ordered: bool) -> ExecInput {
     if two_names { st.push(if rng.chance(50) { "[(pass_statement) (return_statement)] @st {\n  node q\n  attr (q) top = @st.top, depth = @st.depth\n}\n" } else { "[(pass_statement) (return_statement)] @st {\n  node q\n  attr (q) depth = @st.depth, top = @st.top\n  attr (q) again = @st.depth\n}\n" }.into()); }
     if rng.chance(10) { st.push("(call function: (identifier) @f) {\n  node r\n  attr (r) k = @f.k\n}\n".into()); }   // not inherited: undefined unless defined on this node
     if inherit && rng.chance(30) { st.push("(return_statement) @r {\n  node q\n  edge q -> @r.scope\n  attr (q -> @r.scope) via = \"return\"\n}\n".into()); }
+    // the same scoped name on the outer and the inner node of a left-nested construct (same kind, same start position)
+    let nested_same_start = rng.chance(30);
+    let nested_stanzas: Vec<String> = if nested_same_start { vec![
+        "(attribute object: (attribute) @inner) @outer {\n  let @outer.nz = \"outer\"\n  let @inner.nz = \"inner\"\n}\n".into(),
+        "(attribute object: (attribute) @in2) @out2 {\n  node r\n  attr (r) o = @out2.nz, i = @in2.nz\n}\n".into()] } else { vec![] };
     if st.is_empty() { st.push("(module) @m {\n  node @m.scope\n}\n".into()); }
     // reads of one node repeated around later definitions (a lookup must see the NEAREST definition at the time of the read)
     if ordered {
@@ -813,6 +841,8 @@ pub fn c04_input_mode(rng: &mut Rng, ordered: bool) -> ExecInput {
     // stanza order matters for strict execution: outer definitions first, then a random interleaving
     if ordered {} else if rng.chance(50) { for i in (1..st.len()).rev() { let j = rng.below(i + 1); st.swap(i, j); } }
     else if rng.chance(50) { st.sort_by_key(|x| if x.starts_with("(module)") { 0 } else if x.starts_with("(class_definition)") { 1 } else { 2 }); }
+    // the nested-node idiom runs FIRST in strict execution (nothing else can fail before it)
+    if !nested_stanzas.is_empty() { let mut w = nested_stanzas.clone(); w.extend(st); st = w; }
     let mut v = pre; v.extend(st);
     // deeply nested sources with same-range parent/child chains
     let src = if rng.chance(50) { gen_source(rng) } else {
@@ -824,6 +854,7 @@ pub fn c04_input_mode(rng: &mut Rng, ordered: bool) -> ExecInput {
         if rng.chance(30) { s.push_str("class K:\n    def m(self):\n        return self\n"); }
         s
     };
+    let src = if nested_same_start { format!("{}v = a.b.c\n", src) } else { src };
     ExecInput { dsl: v.join("\n"), src, supplied: vec![] }
 }
 pub fn c04_case(inp: &ExecInput) -> Option<Case> {
